@@ -1,6 +1,33 @@
 """C09 (MAC family: MacTrace.tla)."""
 from . import macfam, core
+import glob, json, os
 PID = "C09"
+
+
+def choice_stats(rep, wd):
+    """forked continuations: one per possible first RNG draw at checkpointed states (every channel choice is checked)"""
+    groups, forks = {}, 0
+    for t in sorted(glob.glob(os.path.join(wd, "mac.*.ndjson"))):
+        hist, cur = 0, None
+        with open(t) as f:
+            for line in f:
+                e = json.loads(line)
+                if e["ev"] == "reset":
+                    hist += 1
+                    cur = None
+                elif e["ev"] == "restore":
+                    cur = (t, hist, e["id"])
+                    forks += 1
+                elif cur is not None:
+                    for c in e.get("calls", []):
+                        if c.get("c") == "tx":
+                            groups.setdefault(cur, set()).add((c["rf"]["freq"], c["rf"]["sf"], c["rf"]["bw"]))
+                    cur = None
+    sizes = sorted(len(v) for v in groups.values())
+    return {"rng_enumeration": {"checkpointed_states": len(groups), "forked_transmissions": forks,
+                                "distinct_channel_choices_per_state": {"min": sizes[0] if sizes else 0, "max": sizes[-1] if sizes else 0,
+                                                                        "mean": round(sum(sizes) / len(sizes), 2) if sizes else 0},
+                                "rule": "at the last two sends of every history the device is re-created, the prefix re-executed silently and the send repeated once per possible first draw (16 for the dynamic plans, 64 for the fixed plans)"}}
 
 
 def run():
@@ -8,7 +35,7 @@ def run():
     return macfam.run(PID, [f"hist={40 if t else 4}", f"steps={70 if t else 45}", "profile=tx"],
         'transmission on an illegal channel / data rate / power',
         "seeded random histories (9 regions x 4 (max power, gain) boards x join-bias settings) with CFLists, LinkADRReq, NewChannelReq, ADR back-off; every tx call's frequency, data rate and power is checked against Mac!TxChoices / MaxTxPower computed from the specification's own channel plan",
-        macfam.COMMON_ASSUMPTIONS)
+        macfam.COMMON_ASSUMPTIONS, extra=[choice_stats])
 
 
 def replay(path):
